@@ -61,7 +61,7 @@ KEY_DOWN = "C08:generic-layout-unrecognised-hash-constant-plus-index:sevm-array-
 KEY_NESTPACK = "C08:solidity-layout-nested-packed-keys-same-total-width-share-cell:sevm-string-string-mapping"
 KEY_NESTPACK_G = "C08:generic-layout-nested-packed-keys-same-total-width-share-cell:sevm-string-string-mapping"
 KEY_LARGE = "C08:large-preimage-hash-not-tracked:sevm-bytes-key-preimage-over-128-bytes"
-REPORT_LARGE_PREIMAGE = False   # the documented limitation (sha3_data: "skip tracking hashes with large preimages") is counted, not reported
+REPORT_LARGE_PREIMAGE = True    # sha3_data's documented "skip tracking hashes with large preimages" breaks read-after-write: reported (known finding)
 KEY_TAXIOM = "C08:solidity-layout-transient-emptiness-axiom-constrains-symbolic-persistent-storage:sevm-mapping"
 KEY_PACKED = "C08:packed-key-concrete-preimage-decoded-as-scalar:sevm-bytes1-key"
 
@@ -304,7 +304,9 @@ class Prog:
 # ---------------------------------------------------------------------------------------------------------------------
 # random typed layouts and locations
 # ---------------------------------------------------------------------------------------------------------------------
-KEY_BYTES = [32, 32, 32, 32, 32, 1, 4, 20, 31, 64, 95, 96]      # 64 / 95 / 96: bytes keys with a 96 / 127 / 128-byte hash preimage
+# 64 / 95 / 96: bytes keys with a 96 / 127 / 128-byte hash preimage.  Generated programs never use preimages > 128 bytes:
+# that is the known finding KEY_LARGE, replayed by the directed corpus under its own key (so any other large-key anomaly fails)
+KEY_BYTES = [32, 32, 32, 32, 32, 1, 4, 20, 31, 64, 95, 96]
 CONCRETE_PACKED_OK = None      # does /repo split a fully concrete packed preimage (the repair of KEY_PACKED)? set by correspond
 
 
